@@ -353,10 +353,26 @@ Definition compile_ref (d : draft) (v : json) : res (list ckw) :=
   | _ => E_schema
   end.
 
+(* "$id" is accepted at the ROOT only (it names the document; every modelled $ref is
+   document-local, so it has no influence), and only in a plain absolute form *)
+Definition url_char (c : ascii) : bool :=
+  let n := nat_of_ascii c in
+  (Nat.leb 48 n && Nat.leb n 57) || (Nat.leb 65 n && Nat.leb n 90) || (Nat.leb 97 n && Nat.leb n 122)
+  || Nat.eqb n 95 || Nat.eqb n 45 || Nat.eqb n 46 || Nat.eqb n 47 || Nat.eqb n 58.
+Definition plain_url (s : string) : bool :=
+  match str_prefix "https://" s with
+  | Some r => negb (String.eqb r "") && forallb url_char (str_to_list r)
+  | None =>
+      match str_prefix "http://" s with
+      | Some r => negb (String.eqb r "") && forallb url_char (str_to_list r)
+      | None => false
+      end
+  end.
+
 (* keywords of the drafts that are outside the modelled vocabulary: a schema
    using them is reported as "unsupported" rather than silently mis-validated *)
 Definition unmodelled_keywords : list string :=
-  ["$id"; "$anchor"; "$dynamicRef"; "$dynamicAnchor"; "$recursiveRef"; "$recursiveAnchor";
+  ["$anchor"; "$dynamicRef"; "$dynamicAnchor"; "$recursiveRef"; "$recursiveAnchor";
    "$vocabulary"; "if"; "then"; "else"; "contains"; "minContains"; "maxContains";
    "patternProperties"; "propertyNames"; "dependencies"; "dependentSchemas"; "dependentRequired";
    "uniqueItems"; "minProperties"; "maxProperties"; "format"; "contentEncoding";
@@ -364,7 +380,7 @@ Definition unmodelled_keywords : list string :=
    "default"; "examples"; "readOnly"; "writeOnly"; "deprecated"].
 
 Definition modelled_keywords : list string :=
-  ["$schema"; "$ref"; "$comment"; "title"; "description"; "definitions"; "$defs"; "type"; "enum"; "const";
+  ["$schema"; "$id"; "$ref"; "$comment"; "title"; "description"; "definitions"; "$defs"; "type"; "enum"; "const";
    "minimum"; "maximum"; "exclusiveMinimum"; "exclusiveMaximum"; "multipleOf";
    "minLength"; "maxLength"; "minItems"; "maxItems"; "pattern"; "required";
    "properties"; "additionalProperties"; "items"; "additionalItems"; "prefixItems";
@@ -451,7 +467,7 @@ Definition res_map {A B} (f : A -> B) (r : res A) : res B :=
   match r with Ok a => Ok (f a) | Err e => Err e | Panic w => Panic w | Diverge => Diverge end.
 
 (* one member (k, v) of a schema object; `rec` compiles a subschema *)
-Definition compile_member (rec : json -> res schema) (d : draft) (k : string) (v : json) : res (list ckw) :=
+Definition compile_member (rec : json -> res schema) (d : draft) (root : bool) (k : string) (v : json) : res (list ckw) :=
   let sub := rec in
   let sub_list (v : json) (nonempty : bool) : res (list schema) :=
     match v with
@@ -465,6 +481,11 @@ Definition compile_member (rec : json -> res schema) (d : draft) (k : string) (v
     end in
           if String.eqb k "$ref" then compile_ref d v
   else if String.eqb k "$schema" then (match v with JStr _ => Ok [] | _ => E_schema end)
+  else if String.eqb k "$id" then
+    (match v with
+     | JStr u => if root && plain_url u then Ok [] else E_unsupported
+     | _ => E_schema
+     end)
   else if String.eqb k "$comment" || String.eqb k "title" || String.eqb k "description" then
     (match v with JStr _ => Ok [] | _ => E_schema end)
   else if String.eqb k "definitions" then
@@ -535,12 +556,12 @@ Definition compile_member (rec : json -> res schema) (d : draft) (k : string) (v
 
 (* compile one schema document node; returns the schema and the compiled members
    (the root needs them for its definitions) *)
-Fixpoint compile_node (d : draft) (j : json) {struct j} : res (schema * list ckw) :=
+Fixpoint compile_node (d : draft) (root : bool) (j : json) {struct j} : res (schema * list ckw) :=
   match j with
   | JBool true => Ok (STrue, [])
   | JBool false => Ok (SFalse, [])
   | JObj o =>
-      match seq_res (map (fun kv => compile_member (fun x => res_map fst (compile_node d x)) d (fst kv) (snd kv)) o) with
+      match seq_res (map (fun kv => compile_member (fun x => res_map fst (compile_node d false x)) d root (fst kv) (snd kv)) o) with
       | Ok cks => let l := List.concat cks in Ok (assemble d l, l)
       | Err e => Err e
       | Panic w => Panic w
@@ -639,10 +660,18 @@ Fixpoint no_cycle (E : env) (n : nat) (stack : list string) (t : string) {struct
            end
   end.
 
+(* self-check: R contains every $ref of the root and of every target in R, and all of them resolve *)
+Definition refs_closed (E : env) (R : list string) (root : schema) : bool :=
+  forallb (fun r => str_in r R) (all_refs root) &&
+  forallb (fun t => match jassoc t E with
+                    | Some s => forallb (fun r => str_in r R) (all_refs s)
+                    | None => false
+                    end) R.
+
 Definition compile_root (root : json) : res compiled :=
   match detect_draft root with
   | Ok d =>
-      match compile_node d root with
+      match compile_node d true root with
       | Ok (sc, cks) =>
           let E := ("#", sc) :: defs_of cks in
           let R := reach E (List.length E) ["#"] in
@@ -650,6 +679,8 @@ Definition compile_root (root : json) : res compiled :=
           then Err "schema-ref"
           else if negb (forallb (no_cycle E (Datatypes.S (List.length E)) []) R)
           then Err "schema-loop"
+          else if negb (refs_closed E R sc)
+          then Err "model-internal"      (* self-check of `reach`; never observed *)
           else Ok {| c_draft := d; c_root := sc; c_env := E |}
       | Err e => Err e | Panic w => Panic w | Diverge => Diverge
       end
@@ -675,10 +706,10 @@ Fixpoint jdepth (j : json) {struct j} : nat :=
 
 (* fuel given to a run: between two descents into the instance at most one $ref per
    target can be followed (compile_root rejects in-place cycles), so
-   (depth + 1) * (targets + 1) is enough; `schema-loop` below is then unreachable
-   in practice (not proved; the proved statements hold for every fuel) *)
+   (depth + 1) * (targets + 2) is enough: `schema-loop` below is unreachable after
+   a successful compile_root (proved in Schema/Adequate.v) *)
 Definition fuel_for (c : compiled) (j : json) : nat :=
-  (jdepth j + 1) * (List.length (c_env c) + 1).
+  (jdepth j + 1) * (List.length (c_env c) + 2).
 
 Definition validate_data_with (fuel_of : compiled -> json -> nat) (data schema : option json) : res unit :=
   match schema with
@@ -702,6 +733,15 @@ Definition validate_data_with (fuel_of : compiled -> json -> nat) (data schema :
   end.
 Definition validate_data_fuel (fuel : nat) := validate_data_with (fun _ _ => fuel).
 Definition validate_data := validate_data_with fuel_for.
+
+(* A process makes many calls.  The wrapper keeps no state between calls (every call
+   builds a fresh compiler), so the model of a history of calls is the list of the
+   results of the individual calls. *)
+Fixpoint run_history (calls : list (option json * option json)) : list (res unit) :=
+  match calls with
+  | [] => []
+  | (data, schema) :: rest => validate_data data schema :: run_history rest
+  end.
 
 (* /repo/processor/processor.go: Processor.ValidateData delegates to the
    configured validator, or fails when none is configured *)
